@@ -400,6 +400,11 @@ def _shapes():
         ("both empty", [[], []]), ("nested", [[B], [T]]), ("strings of length 6", ["012345", "012345"]),
         ("second None", [B, None]), ("first None", [None, T]), ("second a number", [B, 0.]),
         ("set", {1, 2}), ("generator", (x for x in (B, T))), ("dict values", {"B": B, "T": T}),
+    ] + [
+        # twelve valid numbers cut at the wrong place (lengths k and 12 - k, k != 6): not "two lists of six"
+        ("lengths %d and %d" % (k, 12 - k), [(B + T)[:k], (B + T)[k:]]) for k in range(0, 13) if k != 6
+    ] + [
+        ("lengths %d and %d" % (a, b), [(B + T + B)[:a], (T + B + T)[:b]]) for a, b in ((6, 12), (12, 6), (3, 3), (1, 6), (6, 1))
     ]
 
 
